@@ -27,16 +27,16 @@ Qed.
 Section OpsOk.
   Variables H md : Type.
   Variable h_ok : H -> bool.
-  (* the boolean premise on the nodes gives C05's OpOK (and tag_ok) on every live node *)
+  (* the boolean premise on the nodes gives C05's OpOK on every live node *)
   Lemma ops_ok_In (h : hugr (op H) md) : ops_ok_b md h_ok h = true ->
-    forall i n, get_node h i = Some n -> op_ok H h_ok (n_op n) = true /\ tag_ok H (n_op n) = true.
+    forall i n, get_node h i = Some n -> op_ok H h_ok (n_op n) = true.
   Proof.
     unfold ops_ok_b, get_node. intros A i n Hn. rewrite forallb_forall in A.
     destruct (nth_error (h_nodes h) i) as [[n'|]|] eqn:E; try discriminate. injection Hn as ->.
-    specialize (A _ (nth_error_In _ _ E)). cbv beta iota in A. unfold cop_ok_b in A. now apply andb_true_iff in A.
+    exact (A _ (nth_error_In _ _ E)).
   Qed.
   Lemma ops_ok_OpsIn (h : hugr (op H) md) : ops_ok_b md h_ok h = true -> OpsIn (OpOK H h_ok) h.
-  Proof. intros A i n Hn. apply op_ok_OpOK. exact (proj1 (ops_ok_In h A i n Hn)). Qed.
+  Proof. intros A i n Hn. apply op_ok_OpOK. exact (ops_ok_In h A i n Hn). Qed.
 End OpsOk.
 
 Section TowerP.
